@@ -492,8 +492,8 @@ int main(int argc, char** argv) {
     vh::init(argc, argv, "C12");
     const bool thorough = vh::g.thorough();
     uint64_t idx = 0;
-    std::vector<int> Ls = {2, 3, 4, 5, 6, 7, 8, 9, 10, 12, 16, 24, 33, 48, 64};
-    const int reps = thorough ? 12 : 4;
+    std::vector<int> Ls = {1, 2, 3, 4, 5, 6, 7, 8, 9, 10, 11, 12, 13, 14, 15, 16, 17, 20, 24, 31, 32, 33, 48, 64};
+    const int reps = thorough ? 2500 : 40;
     for (int L : Ls) {
         for (int rep = 0; rep < reps; ++rep) {
             if (!vh::mine(idx++)) {
